@@ -241,6 +241,8 @@ K("O09.res", ["C09"], "symbols", "c09_resolve_two_scopes", level="bounded", boun
 for _n in (1, 2, 3):
   K("O09.1k.%d" % _n, ["C09", "C02"], "symbols", "c09_table_resolve_twin_%d" % _n, level="bounded", bound="%d context(s) (global, enclosing function, current function), one scope of 0..=1 names over {a, b} each" % _n, functions=["SymbolTable::resolve", "Context::resolve"],
     desc="bounded twin of the table-level lookup contract on the real code whatever its syntactic form: current context, then the global one, never an enclosing function's (added after seeded change C09-2 turned the Verus unit undecided)")
+K("O09.1g", ["C09", "C02"], "symbols", "c09_table_resolve_twin_global_block", level="bounded", bound="global context with two open scopes of 0..=1 names each + current function context with one scope of 0..=1 names, names over {a, b}", functions=["SymbolTable::resolve", "Context::resolve"],
+  desc="bounded twin: a function body sees the globals of every open global scope (a function defined inside a top-level block), innermost first, at the slot Context::resolve gives them (added after seeded change C09-5 turned the Verus unit undecided)")
 K("O09.res3", ["C09"], "symbols", "c09_resolve_three_scopes", level="bounded", tier="thorough", bound="three open scopes of 0..=2 names each over {a, b}", functions=["Context::resolve", "Context::total_len"], timeout=1500,
   desc="thorough tier: O09.res for three scopes")
 K("O05.sym", ["C05", "C09"], "symbols", "c05_define_total", functions=["Context::define"],
